@@ -372,11 +372,27 @@ def _update_rule_references(rules, extends):
                 rule_names.add(stmt.name)
         ancestor = ancestor.extends
 
-    def check_refs(node):
-        if isinstance(node, Ref) and node.name in rule_names and not node.is_local:
-            node._resolved = ex.implementation_name(node.name)
+    # The names of the fields of the classes that we're currently visiting.
+    field_names = []
 
-    visit(rules, check_refs)
+    def check_refs(node):
+        if isinstance(node, ex.Class):
+            field_names.append({x.name for x in node.members if x.name})
+
+        if isinstance(node, Ref) and not node.is_local:
+            if node.name in rule_names:
+                node._resolved = ex.implementation_name(node.name)
+            elif any(node.name in x for x in field_names):
+                # A field of the class, used as a value (as an argument). Record
+                # it, so that it is passed along when the expression is compiled
+                # to its own function.
+                node.local_names = (node.name,)
+
+    def leave(node):
+        if isinstance(node, ex.Class):
+            field_names.pop()
+
+    visit(rules, check_refs, leave)
 
 
 def _create_parsing_expression(tree):
